@@ -68,6 +68,8 @@ type vMemStream struct {
 	rpos    int
 	maxRead int // 0 = unlimited; otherwise every Read returns at most maxRead bytes (short reads)
 	closed  bool
+	duplex  bool // what the code under test writes goes to out instead of being read back
+	out     []byte
 }
 
 func (m *vMemStream) Read(p []byte) (int, error) {
@@ -84,6 +86,10 @@ func (m *vMemStream) Read(p []byte) (int, error) {
 }
 
 func (m *vMemStream) Write(p []byte) (int, error) {
+	if m.duplex {
+		m.out = append(m.out, p...)
+		return len(p), nil
+	}
 	m.buf = append(m.buf, p...)
 	return len(p), nil
 }
